@@ -43,7 +43,7 @@ WILD_TEXTS = ["1e+16", "1E5", "1e3", "1.0", "1.", ".5", "0x10", " 12", "12 ", "+
               # more than one line
               "two\nlines", "x\n", "\nx", "a\n\nb"]
 # what spreadsheet programs and float formatting make of big or fractional numbers
-WILD_NUMBERS = ["1e+16", "-3e+17", "1e+10", "1.2345678901234568e+16", "1E+16", "1e16", "2e+05", "1.5e+3", "12e+16",
+WILD_NUMBERS = ["17.5%", "100%", "5 %", "1e+16", "-3e+17", "1e+10", "1.2345678901234568e+16", "1E+16", "1e16", "2e+05", "1.5e+3", "12e+16",
                 "1e-05", "1.0", "100.0", "1.00", "5.", "1,0", "1.0E+3"]
 WILD_MOMENTS = ["2024-05-06 12:34:56", "1899-12-31 12:00:00", "1900-01-01 00:00:00", "12:34:56", "2024-05-06", "00:00:00",
                 "2024-05-06 00:00:00", "2024-05-06T12:34:56", "12:34", "45432", "45432.5", "0.5", "06.05.2024 00:00:00",
